@@ -855,3 +855,141 @@ def wr2(m, run, meth, slot):
                             why = 'direction %s: the operation receives the count %r, the request was %r' % ('uvw'[d], nlist[d], counts[d])
             run.ob('WR2.wrapper-hands-on-the-request', key, why is None, 'the slot receives the coordinates and counts of the request in (u, v, w) order' if why is None else why,
                    'geomdl/%s.py in %s' % (fi.mod, fi.key))
+
+
+# ====================================================================================== C04 / C06: the operations on abstract objects
+def ops2(m, run, fname, helper, sign):
+    """OPS2: operations.insert_knot / remove_knot interpreted on abstract curves, surfaces and volumes whose control points carry their flat
+    index as a label and whose knots are ordered tokens.  The per-row helper (A5.1 / A5.8) is replaced by a stub with a known effect on the
+    row list (insertion: the first row is repeated num times in front; removal: the first num rows are dropped), so the expected result is
+    known for every cell: the net changes by num along the requested directions only, set_ctrlpts receives the new sizes in (u, v, w) order and
+    a flat list in which the cell at v + Sv*(u + Su*w) is the input cell at the mapped coordinates; the knot vector of a requested direction
+    gains / loses exactly num copies of the parameter, the others are untouched.  One request per direction and one with all directions at
+    once (the later directions must work on the net the earlier ones produced).  Spelling-independent form of AX3/LY1/LY2/LY3/GA1."""
+    cases = (('Curve', 1, (2,), (4,), [[0, 0, 0, 1, 2, 2, 2]]),
+             ('Surface', 2, (2, 1), (4, 5), [[0, 0, 0, 1, 2, 2, 2], [0, 0, 1, 2, 3, 4, 4]]),
+             ('Volume', 3, (1, 1, 2), (3, 4, 5), [[0, 0, 1, 2, 2], [0, 0, 1, 2, 3, 3], [0, 0, 0, 1, 2, 3, 3, 3]]))
+    for cname, pdim, degs, sizes, ranks in cases:
+        reqs = [({d: 2} if helper == 'knot_refinement' else {d: 1}) for d in range(pdim)]
+        if pdim > 1:
+            reqs.append({d: 1 for d in range(pdim)})
+        for req in reqs:
+            label = 'direction ' + '+'.join('uvw'[d] for d in sorted(req))
+            key = 'operations.%s :: BSpline.%s, %s' % (fname, cname, label)
+            record = []
+            obj = abstract_shape(cname, pdim, degs, sizes, False, record)
+            kv0 = [[Ord(r) for r in rk] for rk in ranks]
+            obj._a['_knot_vector'] = [list(k) for k in kv0]
+            total = 1
+            for s_ in sizes:
+                total *= s_
+            obj._a['_control_points'] = pts(total, 3, labelled=True)
+            setc = []
+
+            def set_ctrlpts(sk, node, cp, *sz, _o=obj, **k):
+                setc.append((cp, tuple(sz)))
+                _o._a['_control_points'] = cp
+                _o._a['_control_points_size'] = list(sz) if sz else [len(cp)]
+            obj._a['set_ctrlpts'] = Py(set_ctrlpts, 'set_ctrlpts')
+            ab = dict(STD_ABSTRACTED)
+
+            def stub(sk, node, deg, kv, rows, u=None, **k):
+                num = k.get('num', 1)
+                record.append((helper, deg, len(rows), k.get('density', num) if helper == 'knot_refinement' else num))
+                if helper == 'knot_refinement':
+                    # one new row in front, one new knot strictly inside the first span
+                    return [rows[0]] + list(rows), sorted(list(kv) + [Ord(0.5)])
+                return ([rows[0]] * num + list(rows)) if sign > 0 else list(rows)[num:]
+            ab[('helpers', helper)] = Py(stub, helper)
+            # the knot to insert lies strictly inside the first span; the knot to remove is the first interior knot
+            param, num = [None] * pdim, [0] * pdim
+            for d, c in req.items():
+                param[d] = Ord(0.5) if sign > 0 else Ord(1)
+                num[d] = c
+            sk = SK(m, ab)
+            why = None
+            try:
+                if helper == 'knot_refinement':
+                    sk.call(m.func('operations.' + fname), [obj, num], {})
+                else:
+                    sk.call(m.func('operations.' + fname), [obj, param, num], {})
+            except Violation as v:
+                why = '%s %s' % (v.msg, v.where())
+            except Unsupported as ex:
+                if 'truth value of abstract float' in str(ex):
+                    why = 'a knot / parameter value is used as a truth value (`if knot`, `knot and ...`): the valid value 0.0 counts as "no request" and the operation is skipped'
+                else:
+                    raise AnalysisError('%s: interpreter met an unsupported construct: %s' % (key, ex))
+            if why is None:
+                grow = {d: (1 if helper == 'knot_refinement' else c) for d, c in req.items()}
+                new_sizes = [sizes[d] + sign * grow.get(d, 0) for d in range(pdim)]
+                cp = obj._a['_control_points']
+                got_sizes = obj._a['_control_points_size']
+                if pdim > 1 and list(got_sizes) != new_sizes:
+                    why = 'set_ctrlpts received the sizes %s, the net after the operation is %s (u, v, w)' % (list(got_sizes), new_sizes)
+                else:
+                    exp_total = 1
+                    for s_ in new_sizes:
+                        exp_total *= s_
+                    if len(cp) != exp_total:
+                        why = 'the new flat list has %d cells, %s needs %d' % (len(cp), new_sizes, exp_total)
+                if why is None:
+                    def old_index(coord):
+                        oc = []
+                        for d in range(pdim):
+                            c = coord[d]
+                            if d in req:
+                                c = max(c - grow[d], 0) if sign > 0 else c + grow[d]
+                            oc.append(c)
+                        if pdim == 1:
+                            return oc[0]
+                        if pdim == 2:
+                            return oc[1] + sizes[1] * oc[0]
+                        return oc[1] + sizes[1] * (oc[0] + sizes[0] * oc[2])
+                    import itertools as _it
+                    for coord in _it.product(*[range(s_) for s_ in new_sizes]):
+                        if pdim == 1:
+                            idx = coord[0]
+                        elif pdim == 2:
+                            idx = coord[1] + new_sizes[1] * coord[0]
+                        else:
+                            idx = coord[1] + new_sizes[1] * (coord[0] + new_sizes[0] * coord[2])
+                        fp = footprint(cp[idx]) if isinstance(cp[idx], list) else None
+                        want = frozenset([old_index(coord)])
+                        if fp != want:
+                            why = 'the cell at (u, v, w) = %s of the new net (flat index %d) is the input cell %s, expected input cell %s: rows are gathered or scattered ' \
+                                  'with the wrong stride / order, or a later direction worked on a stale net' % (coord, idx, sorted(fp) if fp is not None else '?', sorted(want))
+                            break
+                if why is None:
+                    for d in range(pdim):
+                        got = [getattr(k_, 'rank', None) for k_ in obj._a['_knot_vector'][d]]
+                        if d in req:
+                            u_r = 0.5 if sign > 0 else 1
+                            want_kv = sorted(ranks[d] + [u_r] * grow[d]) if sign > 0 else list(ranks[d])
+                            if sign < 0:
+                                for _ in range(grow[d]):
+                                    want_kv.remove(u_r)
+                        else:
+                            want_kv = list(ranks[d])
+                        if got != want_kv:
+                            why = 'knot vector of direction %s is %s after the operation, expected %s' % ('uvw'[d], got, want_kv)
+                            break
+                if why is None and len(req) == 1:
+                    d0 = next(iter(req))
+                    for (_h, deg_, nrows, cnt) in [r for r in record if r[0] == helper]:
+                        if deg_ != degs[d0] or nrows != sizes[d0] or cnt != req[d0]:
+                            why = 'for a request in direction %s the row helper is called with degree %r, %r rows and count %r; that direction has degree %d, %d rows ' \
+                                  'and the requested count is %d' % ('uvw'[d0], deg_, nrows, cnt, degs[d0], sizes[d0], req[d0])
+                            break
+                if why is None:
+                    want_calls = {}
+                    for d in req:
+                        rows = 1
+                        for e in range(pdim):
+                            if e != d and pdim == 2:
+                                rows *= sizes[e] + (sign * req.get(e, 0) if e < d else 0)
+                        want_calls[d] = rows
+                    if not any(r[0] == helper for r in record):
+                        why = 'the row helper %s is never called: the request is ignored' % helper
+            run.ob('OPS2.operation-on-abstract-net', key, why is None,
+                   'sizes, flat layout of every cell and all knot vectors are as requested' if why is None else why, 'geomdl/operations.py in operations.%s' % fname)
